@@ -13,14 +13,14 @@ plan('C18',
           'Strata: ini_nonl = the last line of the text is an entry without a final newline; csv_tiny = doubles of magnitude 1e-300..1e-290 '
           '(the main csv mode draws 1e-290..1e300)',
      jobs=[
-         Job('c18_inicsv', 'ini', 'asan', quick=3000, thorough=100000, shards=(5, 16)),
-         Job('c18_inicsv', 'ini', 'plain', quick=3000, thorough=100000, shards=(3, 12)),
-         Job('c18_inicsv', 'ini_nonl', 'asan', quick=600, thorough=20000, shards=(2, 8)),
-         Job('c18_inicsv', 'ini_nonl', 'plain', quick=600, thorough=20000, shards=(1, 4)),
-         Job('c18_inicsv', 'csv', 'asan', quick=3000, thorough=100000, shards=(3, 12)),
-         Job('c18_inicsv', 'csv', 'plain', quick=4000, thorough=100000, shards=(2, 6)),
-         Job('c18_inicsv', 'csv_tiny', 'asan', quick=300, thorough=10000, shards=(1, 4)),
-         Job('c18_inicsv', 'csv_tiny', 'plain', quick=300, thorough=10000, shards=(1, 2)),
+         Job('c18_inicsv', 'ini', 'asan', quick=3000, thorough=160000, shards=(5, 16)),
+         Job('c18_inicsv', 'ini', 'plain', quick=3000, thorough=160000, shards=(3, 12)),
+         Job('c18_inicsv', 'ini_nonl', 'asan', quick=600, thorough=30000, shards=(2, 8)),
+         Job('c18_inicsv', 'ini_nonl', 'plain', quick=600, thorough=30000, shards=(1, 4)),
+         Job('c18_inicsv', 'csv', 'asan', quick=3000, thorough=160000, shards=(3, 12)),
+         Job('c18_inicsv', 'csv', 'plain', quick=4000, thorough=160000, shards=(2, 6)),
+         Job('c18_inicsv', 'csv_tiny', 'asan', quick=300, thorough=16000, shards=(1, 4)),
+         Job('c18_inicsv', 'csv_tiny', 'plain', quick=300, thorough=16000, shards=(1, 2)),
      ],
      assumptions=COMMON_ASSUME + [
          'INI keys are ASCII identifiers, unique per section; values have no leading/trailing blank and no CR/LF (they may hold = # ; [ ] / \\ quotes, '
